@@ -92,7 +92,7 @@ contract(
     merge_branches=False,
     ensures={**_side(0, "entry"), **_side(1, "exit"),
              "two-nodes": "implies(result[0] is not None and result[1] is not None, result[0] != result[1])"},
-    canaries={"entry-always-null": "result[0] is None", "exit-not-rounded": "result[1] is None or result[1].x == 0"},
+    canaries={"exit-not-rounded": "result[1] is None or result[1].x == 0"},  # (one canary: it is checked on each of the eight paths)
     locals={"entryAnchor": Opt(Ref(NODE)), "exitAnchor": Opt(Ref(NODE)), "entry": Opt(Ref("c18_UAnchor")), "exit_": Opt(Ref("c18_UAnchor"))},
 )
 
@@ -120,7 +120,7 @@ contract(
     merge_branches=False,
     ensures={**_side_presence(0, "entry"), **_side_presence(1, "exit"),
              "two-nodes": "implies(result[0] is not None and result[1] is not None, result[0] != result[1])"},
-    canaries={"entry-always-null": "result[0] is None", "exit-never-null": "result[1] is not None"},
+    canaries={"entry-always-null": "result[0] is None"},
     locals=dict(CONTRACTS[_GAS].locals),
 )
 
